@@ -3,6 +3,8 @@
 use crate::core::{Acc, CaseResult, ShardCtx};
 use serde_json::Value;
 
+pub mod c01;
+pub mod c07;
 pub mod c09;
 pub mod c10;
 pub mod c16;
@@ -26,7 +28,7 @@ pub struct PropDef {
 }
 
 pub fn all() -> Vec<PropDef> {
-    vec![c09::def(), c10::def(), c16::def(), c19::def(), c20::def()]
+    vec![c01::def(), c07::def(), c09::def(), c10::def(), c16::def(), c19::def(), c20::def()]
 }
 
 pub fn find(id: &str) -> Option<PropDef> {
